@@ -13,9 +13,13 @@ TERM_SIGNALS = [1, 2, 3, 4, 5, 6, 7, 8, 9, 10, 11, 12, 13, 14, 15, 16, 24, 25, 2
     list(range(34, 65))
 HIDES = [None, "both", "out"]
 CODES = [0, 1, 2, 127, 255, -9, -15]
-STREAM = ["ok", "other", "watcher"]
+STREAM = ["ok", "other", "watcher", "rna"]      # rna = ResponseNotAccepted (a WatcherError)
+VIAS = ["runner", "ctx_run", "ctx_sudo"]
+ASYNCS = [False, "join", "with"]
 PROGRAM_EVENTS = (
-    [{"ev": "success"}, {"ev": "parse"}, {"ev": "kbd"}] +
+    [{"ev": "success"}, {"ev": "parse"}, {"ev": "kbd"}, {"ev": "core_parse"}, {"ev": "nocoll"},
+     {"ev": "warn_flag", "code": 3}, {"ev": "warn_config", "code": 4},
+     {"ev": "multi", "first": "ok", "code": 5}, {"ev": "multi", "first": "fail", "code": 6}] +
     [{"ev": "unexpected", "code": c, "via": "raise"} for c in (1, 2, 17, 127, 255, -9, -15)] +
     [{"ev": "unexpected", "code": c, "via": "run"} for c in (1, 3, 42, 200, 255)] +
     [{"ev": "exit", "code": c, "msg": m} for c in (None, 0, 1, 5, 99, 255) for m in (None, "", "bye")] +
@@ -41,7 +45,7 @@ def observe(thunk, complete):
         return {"raise": "ThreadException", "result": None}
     except Failure as e:
         nm = type(e).__name__
-        if nm not in ("Failure", "CommandTimedOut", "UnexpectedExit") or not complete(e.result):
+        if nm not in ("Failure", "CommandTimedOut", "UnexpectedExit", "AuthFailure") or not complete(e.result):
             return {"other": nm}
         return {"raise": nm, "result": view(e.result)}
     except BaseException as e:  # noqa
@@ -49,6 +53,30 @@ def observe(thunk, complete):
     if not complete(res):
         return {"other": "incomplete-result"}
     return {"return": view(res)}
+
+
+class Swallowed(Exception):
+    """the with-block ended without an exception and without a joined result"""
+
+
+def finish_async(mode, start):
+    """start() -> Promise; finish it the way the case says"""
+    if mode == "with":
+        box = []
+        promise = start()
+        orig = promise.join
+
+        def recording_join():
+            r = orig()
+            box.append(r)
+            return r
+        promise.join = recording_join      # Promise.__exit__ calls self.join()
+        with promise:
+            pass
+        if not box:
+            raise Swallowed()
+        return box[0]
+    return start().join()
 
 
 def coq_optz(x):
@@ -61,7 +89,8 @@ def coq_view(v):
 
 
 KINDS = {"ThreadException": "RThreadException", "Failure": "RFailure",
-         "CommandTimedOut": "RCommandTimedOut", "UnexpectedExit": "RUnexpectedExit"}
+         "CommandTimedOut": "RCommandTimedOut", "UnexpectedExit": "RUnexpectedExit",
+         "AuthFailure": "RAuthFailure"}
 
 
 def coq_outcome(o):
@@ -116,57 +145,81 @@ class C05(Prop):
 
     # -------------------------------------------------------------------- cases
     @staticmethod
-    def _real(how, n, pty, warn, hide=None, asyn=False):
-        return {"kind": "real", "how": how, "n": n, "pty": pty, "warn": warn, "hide": hide, "async": asyn}
+    def _real(how, n, pty, warn, hide=None, asyn=False, nofileno=False):
+        c = {"kind": "real", "how": how, "n": n, "pty": pty, "warn": warn, "hide": hide, "async": asyn}
+        if nofileno:
+            c["nofileno"] = True        # sys.stdin without fileno(): pty=True falls back to no pty
+        return c
 
     @staticmethod
-    def _scripted(out, err, timeout, timed_out, code, warn, hide=None, asyn=False):
+    def _scripted(out, err, timeout, timed_out, code, warn, hide=None, asyn=False, via="runner",
+                  opts_from="kwarg"):
+        if via == "ctx_sudo":
+            asyn = False          # a promise returned by sudo() is joined outside sudo's own handler
         return {"kind": "scripted", "out": out, "err": err, "timeout": timeout, "timed_out": timed_out,
-                "code": code, "warn": warn, "hide": hide, "async": asyn}
+                "code": code, "warn": warn, "hide": hide, "async": asyn, "via": via, "opts_from": opts_from}
 
     def generate(self, rng, tier, n):
         thorough = tier == "thorough"
+        asy = lambda: rng.choice(ASYNCS) if rng.random() < 0.45 else False
         # every exit code and terminating signal, pty on/off
         for code in range(256):
             for pty in (False, True):
                 if thorough:
                     for warn in (False, True):
-                        for asyn in (False, True):
+                        for asyn in ASYNCS:
                             yield self._real("exit", code, pty, warn, rng.choice(HIDES), asyn)
                 else:
-                    yield self._real("exit", code, pty, rng.random() < 0.5, rng.choice(HIDES), rng.random() < 0.3)
+                    yield self._real("exit", code, pty, rng.random() < 0.5, rng.choice(HIDES), asy())
         for sig in TERM_SIGNALS:
             for pty in (False, True):
                 if thorough:
                     for warn in (False, True):
-                        yield self._real("signal", sig, pty, warn, rng.choice(HIDES), rng.random() < 0.5)
+                        yield self._real("signal", sig, pty, warn, rng.choice(HIDES), asy())
                 else:
-                    yield self._real("signal", sig, pty, rng.random() < 0.5, rng.choice(HIDES), rng.random() < 0.3)
+                    yield self._real("signal", sig, pty, rng.random() < 0.5, rng.choice(HIDES), asy())
+        # pty requested while sys.stdin has no fileno(): the runner falls back to a plain subprocess
+        for code in ([0, 1, 3, 127, 255] if not thorough else range(0, 256, 5)):
+            for warn in (False, True):
+                yield self._real("exit", code, True, warn, rng.choice(HIDES), asy(), nofileno=True)
+        for sig in (9, 15):
+            yield self._real("signal", sig, True, True, None, False, nofileno=True)
         # Program.run
         for ev in PROGRAM_EVENTS:
             yield {"kind": "program", "event": ev}
         # scripted truth table: random sample (the whole table is enumerate_small)
         for _ in range(n):
-            w = [0.7, 0.15, 0.15]
+            w = [0.64, 0.12, 0.12, 0.12]
             yield self._scripted(rng.choices(STREAM, w)[0], rng.choices(STREAM, w)[0], rng.choice([None, 5]),
                                  rng.random() < 0.5, rng.choice(CODES + list(range(3, 9))),
-                                 rng.random() < 0.5, rng.choice(HIDES), rng.random() < 0.4)
+                                 rng.random() < 0.5, rng.choice(HIDES), asy(),
+                                 rng.choice(VIAS), rng.choice(["kwarg", "config"]))
 
     def enumerate_small(self, tier):
-        hides = HIDES if tier == "thorough" else [None]
-        asyncs = (False, True) if tier == "thorough" else (False,)
-        for out, err, timeout, to, code, warn, hide, asyn in itertools.product(
-                STREAM, STREAM, [None, 5], [False, True], CODES, [False, True], hides, asyncs):
-            yield self._scripted(out, err, timeout, to, code, warn, hide, asyn)
-        if tier != "thorough":
-            for ev in PROGRAM_EVENTS:
-                yield {"kind": "program", "event": ev}
-            for code in (0, 1, 255):
-                for pty in (False, True):
-                    for warn in (False, True):
-                        yield self._real("exit", code, pty, warn)
+        import random
+        rng = random.Random(5)
+        if tier == "thorough":
+            for out, err, timeout, to, code, warn in itertools.product(
+                    STREAM, STREAM, [None, 5], [False, True], CODES, [False, True]):
+                for via in VIAS:
+                    for asyn in (ASYNCS if via != "ctx_sudo" else [False]):
+                        yield self._scripted(out, err, timeout, to, code, warn, rng.choice(HIDES), asyn, via,
+                                             rng.choice(["kwarg", "config"]))
+            return
+        for out, err, timeout, to, code, warn in itertools.product(
+                STREAM, STREAM, [None, 5], [False, True], [0, 1, -9], [False, True]):
+            for via in VIAS:
+                yield self._scripted(out, err, timeout, to, code, warn, None, False, via)
+        for ev in PROGRAM_EVENTS:
+            yield {"kind": "program", "event": ev}
+        for code in (0, 1, 255):
             for pty in (False, True):
-                yield self._real("signal", 15, pty, True)
+                for warn in (False, True):
+                    for asyn in ASYNCS:
+                        yield self._real("exit", code, pty, warn, None, asyn)
+            yield self._real("exit", code, True, True, None, False, nofileno=True)
+        for pty in (False, True):
+            yield self._real("signal", 15, pty, True)
 
     # --------------------------------------------------------- implementation
     def run_impl(self, case):
@@ -185,21 +238,31 @@ class C05(Prop):
         kw = dict(pty=case["pty"], warn=case["warn"], hide=case["hide"], in_stream=False,
                   out_stream=io.StringIO(), err_stream=io.StringIO())
 
+        eff_pty = case["pty"] and not case.get("nofileno")
+
         def complete(res):
-            return res.pty == case["pty"] and res.command == cmd
+            return res.pty == eff_pty and res.command == cmd
 
         def thunk():
             if case["async"]:
-                return runner.run(cmd, asynchronous=True, **kw).join()
+                return finish_async(case["async"], lambda: runner.run(cmd, asynchronous=True, **kw))
             return runner.run(cmd, **kw)
-        out = observe(thunk, complete)
-        raw = getattr(runner, "status", None) if case["pty"] else None
-        return {"outcome": out, "raw": raw}
+        saved_stdin, saved_stderr = sys.stdin, sys.stderr
+        try:
+            if case.get("nofileno"):
+                sys.stdin = io.StringIO()
+                sys.stderr = io.StringIO()      # the fallback prints a warning
+            out = observe(thunk, complete)
+        finally:
+            sys.stdin, sys.stderr = saved_stdin, saved_stderr
+        raw = getattr(runner, "status", None) if eff_pty else None
+        return {"outcome": out, "raw": raw, "eff_pty": eff_pty}
 
     def _run_scripted(self, case):
         from invoke import Context
         from invoke.runners import Runner
-        from invoke.exceptions import WatcherError
+        from invoke.exceptions import WatcherError, ResponseNotAccepted
+        from invoke.config import Config
 
         class Scripted(Runner):
             input_sleep = 0
@@ -219,6 +282,8 @@ class C05(Prop):
                     raise OhNoz(which)
                 if mode == "watcher":
                     raise WatcherError(which)
+                if mode == "rna":
+                    raise ResponseNotAccepted(which)
                 return (b"<%s>" % which.encode()) if n == 0 else b""
 
             def read_proc_stdout(self, num_bytes):
@@ -247,19 +312,34 @@ class C05(Prop):
             def kill(self):
                 pass
 
-        runner = Scripted(Context())
-        kw = dict(warn=case["warn"], hide=case["hide"], in_stream=False, timeout=case["timeout"],
+        via = case.get("via", "runner")
+        opts = dict(warn=case["warn"], hide=case["hide"])
+        kw = dict(in_stream=False, timeout=case["timeout"],
                   out_stream=io.StringIO(), err_stream=io.StringIO())
+        overrides = {"runners": {"local": Scripted}}
+        if case.get("opts_from", "kwarg") == "config":
+            overrides["run"] = dict(opts)          # warn / hide come from the configuration
+        else:
+            kw.update(opts)
+        ctx = Context(config=Config(overrides=overrides))
         want_out = "<out>" if case["out"] == "ok" else ""
         want_err = "<err>" if case["err"] == "ok" else ""
 
         def complete(res):
-            return res.stdout == want_out and res.stderr == want_err and res.command == "cmd"
+            cmd_ok = res.command.startswith("sudo -S -p ") if via == "ctx_sudo" else res.command == "cmd"
+            return res.stdout == want_out and res.stderr == want_err and cmd_ok
+
+        def start(**extra):
+            if via == "runner":
+                return Scripted(ctx).run("cmd", **kw, **extra)
+            if via == "ctx_run":
+                return ctx.run("cmd", **kw, **extra)
+            return ctx.sudo("cmd", password="pw", **kw, **extra)
 
         def thunk():
             if case["async"]:
-                return runner.run("cmd", asynchronous=True, **kw).join()
-            return runner.run("cmd", **kw)
+                return finish_async(case["async"], lambda: start(asynchronous=True))
+            return start()
         return {"outcome": observe(thunk, complete)}
 
     def _run_program(self, case):
@@ -289,21 +369,62 @@ class C05(Prop):
                     raise ThreadException([])
                 raise ValueError("boom")
 
+        ran = []
+
         @task
         def t(c):
+            k = ev["ev"]
+            if k in ("warn_flag", "warn_config"):
+                r = c.run("exit %d" % ev["code"], in_stream=False)      # warn comes from -w / the configuration
+                ran.append(r.exited)
+                return
+            if k == "multi" and ev["first"] == "ok":
+                ran.append("t")
+                return
+            if k == "multi":
+                raise UnexpectedExit(Result(command="x", exited=ev["code"]))
             body(c)
-        argv = ["inv", "t"] + (["--no-such-flag"] if ev["ev"] == "parse" else [])
+
+        @task
+        def t2(c):
+            ran.append("t2")
+            if ev["ev"] == "multi" and ev["first"] == "ok":
+                raise UnexpectedExit(Result(command="x", exited=ev["code"]))
+        coll = Collection(t, t2)
+        if ev["ev"] == "warn_config":
+            coll.configure({"run": {"warn": True}})
+        argv = ["inv", "t"]
+        program = Program(namespace=coll)
+        if ev["ev"] == "parse":
+            argv = ["inv", "t", "--no-such-flag"]
+        elif ev["ev"] == "core_parse":
+            argv = ["inv", "--command-timeout"]              # a core flag that lacks its value
+        elif ev["ev"] == "warn_flag":
+            argv = ["inv", "-w", "t"]
+        elif ev["ev"] == "multi":
+            argv = ["inv", "t", "t2"]
+        elif ev["ev"] == "nocoll":
+            program = Program()                               # loads a collection from the file system
+            argv = ["inv", "--search-root", "/proc/self/fdinfo", "-c", "c05v_no_such_collection", "t"]
         saved = sys.stderr, sys.stdout
         sys.stderr, sys.stdout = io.StringIO(), io.StringIO()
         try:
             try:
-                Program(namespace=Collection(t)).run(argv)
+                program.run(argv)
                 out = {"returns": True}
+                if ev["ev"] in ("warn_flag", "warn_config") and ran != [ev["code"]]:
+                    out = {"propagates": "command-not-run-as-expected"}
+                if ev["ev"] == "multi":
+                    out = {"propagates": "second-task-did-not-fail"}
             except SystemExit as e:
                 out = {"sysexit": e.code} if isinstance(e.code, int) and not isinstance(e.code, bool) \
                     else {"propagates": "SystemExit(%r)" % (e.code,)}
             except BaseException as e:  # noqa
                 out = {"propagates": type(e).__name__}
+            if ev["ev"] == "multi" and "sysexit" in out:
+                want = ["t", "t2"] if ev["first"] == "ok" else []
+                if ran != want:
+                    out = {"propagates": "tasks-run:%r" % (ran,)}
         finally:
             sys.stderr, sys.stdout = saved
         return {"prog": out}
@@ -313,17 +434,25 @@ class C05(Prop):
         k = case["kind"]
         if k == "real":
             e = "(Exited %s)" % ct.z(case["n"]) if case["how"] == "exit" else "(Killed %s)" % ct.z(case["n"])
-            return "(CReal %s %s %s %s %s)" % (e, ct.b(case["pty"]), ct.b(case["warn"]),
+            return "(CReal %s %s %s %s %s)" % (e, ct.b(case["pty"] and not case.get("nofileno")), ct.b(case["warn"]),
                                              coq_optz(obs["raw"]), coq_outcome(obs["outcome"]))
         if k == "scripted":
             te = sum(1 for w in ("out", "err") if case[w] == "other")
-            we = sum(1 for w in ("out", "err") if case[w] == "watcher")
-            sit = "(mkSit %s %s %s %s %s %s)" % (ct.n(te), ct.n(we), ct.b(case["timeout"] is not None),
-                                                 ct.b(case["timed_out"]), ct.z(case["code"]), ct.b(case["warn"]))
-            return "(CScripted %s %s %s)" % (sit, coq_optz(case["code"]), coq_outcome(obs["outcome"]))
+            werrs = [case[w] for w in ("out", "err") if case[w] in ("watcher", "rna")]   # thread order
+            first_rna = bool(werrs) and werrs[0] == "rna"
+            sit = "(mkSit %s %s %s %s %s %s %s %s)" % (
+                ct.n(te), ct.n(len(werrs)), ct.b(case["timeout"] is not None), ct.b(case["timed_out"]),
+                ct.z(case["code"]), ct.b(case["warn"]), ct.b(case.get("via") == "ctx_sudo"), ct.b(first_rna))
+            return "(CScripted %s %s)" % (sit, coq_outcome(obs["outcome"]))
         ev = case["event"]
-        if ev["ev"] == "success":
+        if ev["ev"] in ("success", "warn_flag", "warn_config"):
             e = "PSuccess"
+        elif ev["ev"] == "multi":
+            e = "(PUnexpectedExit %s)" % ct.z(ev["code"])
+        elif ev["ev"] == "core_parse":
+            e = "PParseError"
+        elif ev["ev"] == "nocoll":
+            e = "(PExit None true)"
         elif ev["ev"] == "unexpected":
             e = "(PUnexpectedExit %s)" % ct.z(ev["code"])
         elif ev["ev"] == "exit":
@@ -371,6 +500,10 @@ class C05(Prop):
             return
         if case.get("async"):
             yield dict(case, **{"async": False})
+        if case.get("via", "runner") != "runner" and not any(case[w] == "rna" for w in ("out", "err")):
+            yield dict(case, via="runner")
+        if case.get("opts_from") == "config":
+            yield dict(case, opts_from="kwarg")
         if case.get("hide") is not None:
             yield dict(case, hide=None)
         if k == "scripted":
